@@ -2157,7 +2157,7 @@ def finish(ck, proof_ok, failing, stats, hist, corr_bad, oracle_bad, distinct):
         'runs producing non-finite values (division by zero, empty min/max) or whose defining expressions are not ordered by variable index are outside the modelled fragment (counted)',
         'sol:chk:round / sol:chk:prec are sampled only where the double computation pow(10,n)/round is exact (filtered in python)',
     ]
-    ck.cov['trusted_base'] += ['harness/c07/c07modelmgr.cc: dump of the flat model at check time (reads the converter through its public API only)',
+    ck.cov['trusted_base'] += ['translators/gen_solcheck.py + clang-14 typed AST: decision functions of the checker regenerated as Lean definitions (doubles = ordered field with +-inf, NaN-free; non-decision operands are parameters)', 'harness/c07/c07modelmgr.cc: dump of the flat model at check time (reads the converter through its public API only)',
                                'checks/c07.py: translation of the dump into driver ops, rendering of the report text, NL-level oracle (gen/nlgen.py evaluator)']
 
 
